@@ -43,6 +43,11 @@ func newMount3(b *kvs.Budget) (*mount.FS, map[string]hackpadfs.FS, error) {
 	if err != nil {
 		return nil, nil, err
 	}
+	// an attempt to mount over the root itself: refused, or else whatever it leaves behind is walked like everything else
+	if over, err := budgetedMem(b); err == nil {
+		_ = hackpadfs.WriteFullFile(over, "only-in-the-fs-mounted-over-the-root", []byte("x"), 0o644)
+		_ = m.AddMount(".", over)
+	}
 	for _, p := range []string{"a", "a/b", "ab", "c/a"} {
 		if err := hackpadfs.MkdirAll(m, p, 0o755); err != nil {
 			return nil, nil, fmt.Errorf("mkdir %s: %w", p, err)
@@ -159,6 +164,9 @@ func c03faultHistories() [][]fsx.Step {
 		{K: "Rename", P: "a/c", P2: "b"},
 		{K: "RemoveAll", P: "a"},
 		{K: "Remove", P: "a/b"},
+		{K: "Remove", P: "a"},   // not empty: must stay whatever fails on the way
+		{K: "Remove", P: "a/c"}, // not empty either
+		{K: "Rename", P: "a/c", P2: "a/b"},
 		{K: "MkdirAll", P: "b/c/ab", Perm: 0o755},
 		{K: "MkdirAll", P: "a/c/ab/b", Perm: 0o700},
 		{K: "OpenClose", P: "a", Flag: os.O_RDWR | os.O_CREATE, Perm: 0o644, Data: "x"},
